@@ -596,7 +596,9 @@ def build_ext(desc):
     name = rng.choice(["my_ext", "ext.sub", "ünï.ext", "拡張"]) + str(seed)
     e = ext.Extension(
         name,
-        ext.Version(rng.randrange(3), rng.randrange(10), rng.randrange(10)),
+        ext.Version(rng.randrange(3), rng.randrange(10), rng.randrange(10),
+                    prerelease=rng.choice([None, None, "rc.1", "alpha", "0.3.7"]),
+                    build=rng.choice([None, None, "build.7", "sha.5114f85"])),
         runtime_reqs=set(rng.sample(["prelude", "logic", "arithmetic.int.types", "x.ü"], rng.randint(0, 3))),
     )
     params_pool = [
